@@ -7,7 +7,48 @@ import json, os, subprocess, sys, tempfile, shutil
 def sh(cmd, **kw):
     return subprocess.run(cmd, shell=True, capture_output=True, text=True, **kw)
 
+def main_scratch(d, checks):
+    """Same procedure on a scratch copy of /repo's HEAD (does not touch /repo): used while a background run
+    is reading /repo."""
+    patch = os.path.join(d, "patch.diff")
+    out = {"dir": d, "checks": {}, "scratch_tree": True}
+    scratch = tempfile.mkdtemp(prefix="pv-seed-")
+    tree = os.path.join(scratch, "tree")
+    os.makedirs(tree)
+    try:
+        sh("git -C /repo archive HEAD | tar -x -C %s" % tree)
+        demo = os.path.join(d, "demo.py")
+        if os.path.exists(demo):
+            r = sh("cd %s && PYTHONPATH=%s /venv/bin/python %s" % (scratch, tree, demo), timeout=600)
+            out["demo_without_change"] = r.returncode
+        r = sh("git apply --whitespace=nowarn %s" % patch, cwd=tree)
+        if r.returncode:
+            print("patch does not apply:", r.stderr); return 2
+        t = sh("cd %s && /venv/bin/python -m pytest -q -p no:cacheprovider --timeout=900 2>&1 | tail -3" % tree)
+        out["tests"] = t.stdout.strip().splitlines()[-2:] if t.stdout.strip() else []
+        out["tests_pass"] = "75 passed" in t.stdout and "failed" not in t.stdout
+        if os.path.exists(demo):
+            r = sh("cd %s && PYTHONPATH=%s /venv/bin/python %s" % (scratch, tree, demo), timeout=600)
+            out["demo_with_change"] = r.returncode
+        env = dict(os.environ, PYSNARK_TREE=tree, VERIF_EVIDENCE_DIR=os.path.join(scratch, "ev"), VERIF_REPLAY_DIR=os.path.join(scratch, "rp"))
+        for c in checks:
+            tier = "quick"
+            if ":" in c:
+                c, tier = c.split(":")
+            r = sh("cd /verif && ./check %s --tier %s" % (c, tier), env=env)
+            viol = [ln for ln in r.stdout.splitlines() if ln.startswith("VIOLATION")]
+            what = [ln.strip()[:300] for ln in r.stdout.splitlines() if ln.strip().startswith("what:")]
+            out["checks"][c + ":" + tier] = {"exit": r.returncode, "violations": len(viol), "first": what[:2],
+                                             "harness_error": "HARNESS-ERROR" in r.stdout}
+    finally:
+        shutil.rmtree(scratch, True)
+    print(json.dumps(out, indent=1))
+    return 0
+
+
 def main():
+    if sys.argv[1] == "--scratch":
+        return main_scratch(os.path.abspath(sys.argv[2]), sys.argv[3:])
     d = os.path.abspath(sys.argv[1]); checks = sys.argv[2:]
     patch = os.path.join(d, "patch.diff")
     st = sh("git -C /repo status --porcelain --untracked-files=no").stdout.strip()
